@@ -40,9 +40,19 @@ pub fn info(prop: &str) -> PropInfo {
         "C12" => ("exploration", "0-3 open streams (request side open or closed), 0-3 blocked pulls, in-flight ack/modify/pull, DeleteSubscription at 0-6 ticks, many scheduler seeds; non-trivial = DeleteSubscription invoked while >=1 stream or blocked pull was waiting on it; distinct by (scheduler seed, operation list)"),
         "C13" => ("exploration", "N in {0,1,2,19,20,21,40,...} resources over 2 projects built by create/delete histories; full walks of the three list RPCs with boundary page sizes; hostile page tokens; non-trivial = a walk of >=2 pages over a list that saw a deletion, or a hostile token; distinct by hash of the operation list"),
         "C15" => ("exploration", "max_messages / max_outstanding_messages from boundary sets around 1000 and 65535/65536, backlogs around those sizes, blocking and non-blocking pulls; non-trivial = backlog larger than the limit, a limit >=65535, or a blocking pull that had to wait; distinct by hash of the operation list"),
+        "C16" => ("fault_enumeration", "every request kind (13 unary RPCs, push-subscription create, stream open, stream control message) x drop after k = 0..12 polls of its future x {no, topic, subscription, both} mailboxes saturated by 17-40 state-neutral requests x {one scheduler tick, a full settle} between polls, plus proptest-generated prefixes; oracle = the observable state (all listings, resources, stats, push registry, an attach probe, and what is obtainable after the ack deadline) equals that of a reference run with the request completed or that of one with the request never sent; non-trivial = the drop happened after at least one poll, i.e. inside the handler; distinct by (kind, k, saturation, pacing)"),
+        "C17" => ("exploration", "one to four requests per case against a prepared instance (2 topics, 3 subscriptions, outstanding deliveries, an open stream) with fields drawn from structured pools: near-miss / empty / huge / non-ASCII / slash-heavy names, malformed ack ids, boundary integers, page tokens, push endpoints, inconsistent StreamingPull control messages; the observable state is rendered before and after every request; non-trivial = a request that must be rejected although it also carries valid, effect-bearing elements; distinct by hash of the operation list"),
+        "C18" => ("exploration", "exhaustive enumeration of projects/ + up to 5 (quick) / 7 (thorough) tokens from {a,b,/,e-acute,topics,subscriptions,projects,-,1} and of all strings of up to 5 raw symbols, plus proptest pairs of grammar-valid names, near-miss mutations and arbitrary UTF-8; oracle = independent reference grammar, echo round trip, injectivity; non-trivial = string starts with projects/ and contains >=2 further slashes; distinct strings counted"),
+        "C19" => ("exploration", "(a) deterministic explorer: every sequence of up to 6 (quick) / 8 (thorough) operations from {NewWaiter, Poll(0..2), Inc, Dec} for three limit pairs, plus proptest sequences of up to 24 operations with up to 6 waiters, polled by hand with flag wakers; (b) barrier-started real-thread rounds (1-3 waiters, a freeing dec after a generated spin of 0-400 iterations, optional noise thread); non-trivial = an inc/dec executed while >=2 waiters were parked (explorer) or a round with >=2 waiters or a noise thread (stress); distinct by hash of the case"),
         _ => ("exploration", ""),
     };
-    PropInfo { level, rule, assumptions: SIM_ASSUMPTIONS }
+    let assumptions: &'static [&'static str] = match prop {
+        "C18" => &["TopicName::try_parse / SubscriptionName::try_parse / Display are the parsers every RPC goes through (src/api/parser.rs)", "empty project or resource IDs are outside the grammar"],
+        "C16" => &["in-process transport: dropping the client call future drops the handler at its current suspension point (over HTTP/2 the cancellation arrives a few scheduler turns later; not modelled)", "the reference runs are executions of the same implementation on the same seeds: the oracle is the metamorphic relation abandon(k) in {completed, never sent} plus the absolute attach probe", "saturation uses state-neutral requests only (GetSubscription, ListTopicSubscriptions)"],
+        "C19" => &["explorer polls are atomic: interleavings inside one poll are only reached by the real-thread stress, which is not a pure function of the seed", "a waiter that has not resumed 20 s after capacity was freed on an otherwise idle process is taken as never resuming"],
+        _ => SIM_ASSUMPTIONS,
+    };
+    PropInfo { level, rule, assumptions }
 }
 
 fn scale(tier: Tier, quick: u64, thorough: u64) -> u64 {
@@ -601,6 +611,13 @@ pub fn run_worker(ctx: &WorkerCtx) -> WorkerOut {
                 run_sim_stage(ctx, SimStage { name: "limits_big", strategy: c15_strategy(true), cfg: sim_cfg(false), cases: ctx.share(scale(t, 0, 400)), nontrivial: &nt, classes: &std_classes, extra: None }, &mut out);
             }
         }
+        "C16" => crate::c16::c16_check(ctx, &mut out),
+        "C17" => {
+            let nt = |c: &Case, _: &Report| crate::c17::has_mixed_rejection(c);
+            run_sim_stage(ctx, SimStage { name: "malformed", strategy: crate::c17::c17_strategy(), cfg: sim_cfg(false), cases: ctx.share(scale(t, 8_000, 200_000)), nontrivial: &nt, classes: &crate::c17::c17_classes, extra: Some(&crate::c17::c17_extra) }, &mut out);
+        }
+        "C18" => crate::pure::names_check(ctx, &mut out),
+        "C19" => crate::flow::flow_check(ctx, &mut out),
         other => {
             out.notes.push(format!("no worker for {}", other));
         }
@@ -641,9 +658,15 @@ pub fn replay_input(prop: &str, input: &serde_json::Value) -> Result<Vec<Violati
             let cfg = cfg_from_json(input.get("cfg").unwrap_or(&serde_json::Value::Null));
             let tr = crate::sim::run_case(&case, &cfg);
             let rep = crate::model::analyze(&tr);
-            let _ = prop;
-            Ok(rep.violations)
+            let mut vs = rep.violations;
+            if prop == "C17" {
+                vs.extend(crate::c17::c17_extra(&case, &tr, &crate::model::Report::default()));
+            }
+            Ok(vs)
         }
+        "pure_names" => Ok(crate::pure::replay_names(input)),
+        "c16" => crate::c16::replay_c16(input),
+        "flow_explorer" | "flow_stress" => crate::flow::replay_flow(input),
         other => Err(format!("unknown engine {}", other)),
     }
 }
@@ -664,6 +687,7 @@ pub fn strategy_for(prop: &str) -> BoxedStrategy<Case> {
         "C12" => c12_strategy(),
         "C13" => c13_strategy(false),
         "C15" => c15_strategy(false),
+        "C17" => crate::c17::c17_strategy(),
         _ => c01_strategy(),
     }
 }
